@@ -162,19 +162,30 @@ theorem blame_regex_pinned :
     Generated.Blame.authorMode ≤ 1 := by decide
 
 /-- `parseBlame (fmtBlame r) = some r`: commit of 4–40 hex digits (optionally `^`), optional
-file column without `(`, author of two or more characters without leading/trailing blank, a
-valid timestamp with any time zone (in chrono's normal form: `-0000` is printed `+0000`), a
-line number below 2^64 and — found while proving this — code that contains nothing that looks
-like the end of a blame prefix (`noTail`); see `round_trip_fails_on_lookalike_code`. -/
+file column without `(`, author without leading/trailing blank, a valid timestamp with any time
+zone (in chrono's normal form: `-0000` is printed `+0000`), a line number below 2^64, any
+padding. What else is needed depends on the author sub-pattern of the regex in the source
+(`Generated.Blame.authorMode`), and was found while proving this:
+* `[^ ].*[^ ]` (mode 0, longest match): the author needs two or more characters and the *code*
+  must not contain anything that looks like the end of a blame prefix (`noTail`) — see
+  `round_trip_fails_on_lookalike_code`, `one_char_author_status`;
+* `[^ ](?:.*?[^ ])??` (mode 1, shortest match; the proposed fix): any code, any author of one
+  or more characters in which no blank is directly followed by a digit. -/
 theorem blame_round_trip (r : BlameRec) (file : Option Str) (padA padB : Nat)
     (hc : validCommit r.commit) (hf : ∀ f, file = some f → '(' ∉ f)
-    (ha : 2 ≤ r.author.length) (ha0 : r.author.head? ≠ some ' ') (ha1 : r.author.getLast? ≠ some ' ')
+    (ha : 1 ≤ r.author.length) (ha0 : r.author.head? ≠ some ' ') (ha1 : r.author.getLast? ≠ some ' ')
     (hts : tsShape r.ts = true) (htv : tsValid r.ts = true) (htn : normTs r.ts = r.ts)
-    (hn : r.lineNumber < 2 ^ 64) (hcode : noTail r.code = true) :
+    (hn : r.lineNumber < 2 ^ 64)
+    (hgreedy : Generated.Blame.authorMode = 0 → 2 ≤ r.author.length ∧ noTail r.code = true)
+    (hlazy : Generated.Blame.authorMode = 1 → noBlankDigit r.author = true) :
     parseBlame Generated.Blame.authorMode (fmtBlame r file padA padB) = some r := by
-  have hm : Generated.Blame.authorMode = 0 := rfl
-  rw [hm]
-  exact parse_fmt_greedy r file padA padB hc hf ha ha0 ha1 hts htv htn hn hcode
+  first
+  | (have hm : Generated.Blame.authorMode = 0 := rfl
+     rw [hm]
+     exact parse_fmt_greedy r file padA padB hc hf (hgreedy hm).1 ha0 ha1 hts htv htn hn (hgreedy hm).2)
+  | (have hm : Generated.Blame.authorMode = 1 := rfl
+     rw [hm]
+     exact parse_fmt_lazy r file padA padB hc hf ha ha0 ha1 (hlazy hm) hts htv htn hn)
 
 def exRec : BlameRec :=
   ⟨"^35876eaa".toList, "Kangwook Lee (이강욱)".toList, "2021-06-09 23:33:59 +0900".toList, 130,
@@ -182,9 +193,10 @@ def exRec : BlameRec :=
 
 example : validCommit exRec.commit ∧ 2 ≤ exRec.author.length ∧ exRec.author.head? ≠ some ' ' ∧
     exRec.author.getLast? ≠ some ' ' ∧ tsShape exRec.ts = true ∧ tsValid exRec.ts = true ∧
-    normTs exRec.ts = exRec.ts ∧ exRec.lineNumber < 2 ^ 64 ∧ noTail exRec.code = true :=
+    normTs exRec.ts = exRec.ts ∧ exRec.lineNumber < 2 ^ 64 ∧ noTail exRec.code = true ∧
+    noBlankDigit exRec.author = true :=
   ⟨⟨"35876eaa".toList, Or.inr (by decide), by decide, by decide, by decide⟩,
-   by decide, by decide, by decide, by decide, by decide, by decide, by decide, by decide⟩
+   by decide, by decide, by decide, by decide, by decide, by decide, by decide, by decide, by decide⟩
 
 example : String.ofList (fmtBlame exRec (some "old/name.rs".toList) 1 2) =
     "^35876eaa old/name.rs (Kangwook Lee (이강욱)  2021-06-09 23:33:59 +0900   130)     let mut output_type =" := by
